@@ -100,3 +100,155 @@ class LA:
 
     def veq(self, name, a, b, hyps=()):
         return eqs(self.enc, name, list(zip(a, b)), hyps=hyps)
+
+
+def elim_atan2(enc, p):
+    """Exact elimination of the (S,C) pairs of atan2-derived angles from an equality goal p = 0.
+    For TH = atan2(y, x) the encoder defines C*r = x, S*r = y, r = sqrt(x^2+y^2) > 0. With d the total degree of p in (S,C):
+    r^d * p(S,C) = sum over monomials S^a C^b m  ->  y^a x^b r^(d-a-b) m, and since r > 0:  p = 0  <=>  r^d p = 0.
+    Later atoms are eliminated first (their x,y may mention earlier ones)."""
+    R = enc.ring
+    ats = sorted(((k[1], at) for k, at in enc.atoms.items() if k[0] == "n" and "TH" in at and enc.t.nodes[k[1]][0] == "atan2"), key=lambda t: -t[0])
+    for nid, at in ats:
+        si, ci = at["S"], at["C"]
+        d = 0
+        for m in p:
+            e = sum(ex for v, ex in m if v in (si, ci))
+            d = max(d, e)
+        if d == 0:
+            continue
+        op, a, b, _, _ = enc.t.nodes[nid]
+        y, x = enc.poly(a), enc.poly(b)
+        r = enc.root(P.add(R.mul(x, x), R.mul(y, y)), 2, None)
+        if not r:
+            raise RuntimeError("atan2(0,0): elimination would be vacuous")
+        pw = {"y": [P.const(1)], "x": [P.const(1)], "r": [P.const(1)]}
+        for _ in range(d):
+            pw["y"].append(R.mul(pw["y"][-1], y)); pw["x"].append(R.mul(pw["x"][-1], x)); pw["r"].append(R.mul(pw["r"][-1], r))
+        new = {}
+        for m, c in p.items():
+            es = ec = 0
+            rest = []
+            for v, ex in m:
+                if v == si:
+                    es = ex
+                elif v == ci:
+                    ec = ex
+                else:
+                    rest.append((v, ex))
+            t = {tuple(rest): c}
+            t = R.mul(R.mul(R.mul(t, pw["y"][es]), pw["x"][ec]), pw["r"][d - es - ec])
+            new = P.add(new, t)
+        p = new
+    return p
+
+
+class RootSimplifier:
+    """Exact, path-aware simplification of square-root variables (spec-side algebra; every step is re-checked by the solver as a lemma):
+    a root variable r (r^2 = rad, r >= 0) is replaced
+      (a) by sigma*p when rad == p^2 as polynomials (after the substitutions found so far) and the executed path contains the literal
+          p > 0 / p >= 0 (sigma=+1) or p < 0 / p <= 0 (sigma=-1);
+      (b) by a rational c >= 0 when rad - c^2 vanishes identically, possibly only after exact clearing of inverse variables (e.g. the norm of the
+          cross product of two orthogonal unit vectors); candidates for c come from the numeric value at the seed;
+    an inverse variable whose denominator became a non-zero rational is replaced by that rational's inverse.
+    `lemmas()` returns the obligations that justify each step on this path."""
+
+    def __init__(self, enc):
+        from engine.driver.encode import rat_sqrt
+        self.enc = enc
+        R = enc.ring
+        self.subst = {}
+        self.order = []
+        self.how = {}
+        for name in enc.t.output_order:          # encode everything first: all root variables of the trace exist afterwards
+            enc.out(name)
+        for k, at in list(enc.atoms.items()):     # ... including r = sqrt(x^2+y^2) of every atan2
+            if k[0] == "n" and "TH" in at and enc.t.nodes[k[1]][0] == "atan2":
+                op, a, b, _, _ = enc.t.nodes[k[1]]
+                y, x = enc.poly(a), enc.poly(b)
+                enc.root(P.add(R.mul(x, x), R.mul(y, y)), 2, None)
+        pc = enc.path_condition()
+        lits = [(c.rel, c.p) for _, c in pc if c.rel in (2, 3, 4, 5)]
+        roots = getattr(enc, "root_rad", {})
+        for vi in sorted(set(roots) | set(enc.inv_den)):
+            if vi in enc.inv_den:
+                den = self.apply(enc.inv_den[vi])
+                if P.is_const(den) and P.const_val(den) != 0:
+                    self._set(vi, P.const(1 / P.const_val(den)), ("inv", den))
+                continue
+            n, rad = roots[vi]
+            if n != 2:
+                continue
+            rad2 = self.apply(rad)
+            if P.is_const(rad2):
+                c = P.const_val(rad2)
+                sq = rat_sqrt(c) if c >= 0 else None
+                if sq is not None:
+                    self._set(vi, P.const(sq), ("const", rad2))
+                continue
+            done = False
+            for rel, lp in lits:
+                p2 = self.apply(lp)
+                if vi in R.vars_of(p2):
+                    continue
+                if R.mul(p2, p2) == rad2:
+                    self._set(vi, p2 if rel in (2, 3) else P.neg(p2), ("sign", rel))
+                    done = True
+                    break
+            if done:
+                continue
+            val = enc.vals.get(vi)
+            if val is not None and val == val and abs(val) < 1e6 and any(R.kind[v] == "inv" for v in R.vars_of(rad2)):
+                c = Fraction(val).limit_denominator(64)
+                if abs(float(c) - val) < 1e-9 and c > 0:
+                    try:
+                        q, _ = enc.clear_inverses(P.sub(rad2, P.const(c * c)))
+                    except P.TooBig:
+                        q = None
+                    if q is not None and not q:
+                        self._set(vi, P.const(c), ("cleared", rad2))
+
+    def _set(self, vi, rep, how):
+        self.subst[vi] = rep
+        self.order.append(vi)
+        self.how[vi] = how
+
+    def apply(self, p):
+        R = self.enc.ring
+        for vi in self.order:
+            if R.degree_in(p, vi):
+                p = R.subs(p, vi, self.subst[vi])
+        return p
+
+    def lemmas(self):
+        """obligations justifying the substitutions, in order; lemma k may use the equalities 1..k-1 as hypotheses (proved on the same path)"""
+        R = self.enc.ring
+        obs = []
+        prev = []
+        for vi in self.order:
+            rep = self.subst[vi]
+            c = Constraint(1, P.sub(R.v(vi), rep), "simplification %s" % R.names[vi])
+            tw = [Constraint(1, P.add(R.v(vi), P.add(rep, P.const(1))), "[twin] v = -rep-1")]
+            how = self.how[vi]
+            hy = list(prev)
+            if how[0] == "cleared":
+                # (i) rad = c^2 (equality with inverse variables: decided after exact denominator clearing); (ii) r^2 = c^2, r >= 0 |- r = c
+                cc = P.const_val(rep)
+                obs.append(Ob("lemma: radicand of %s = %s on this path" % (R.names[vi], cc * cc), [Constraint(1, P.sub(how[1], P.const(cc * cc)), "rad=c^2")], hyps=list(prev)))
+                hy.append(Constraint(1, P.sub({((vi, 2),): Fraction(1)}, P.const(cc * cc)), "r^2 = rad = c^2 (definition of r and the previous lemma)"))
+            obs.append(Ob("lemma: %s = %s on this path" % (R.names[vi], R.text(rep, 6)), [c], hyps=hy, twin=tw))
+            prev.append(c)
+        return obs
+
+
+def eqs_elim(enc, name, pairs, hyps=(), roots=None):
+    """like core.eqs, but every goal polynomial has atan2 (S,C) pairs eliminated exactly (see elim_atan2) and, optionally,
+    square roots simplified by a RootSimplifier"""
+    f = (lambda p: roots.apply(elim_atan2(enc, p))) if roots is not None else (lambda p: elim_atan2(enc, p))
+    goal = [Constraint(1, f(P.sub(l, r)), "%s[%d] (atan2 pairs eliminated)" % (name, i)) for i, (l, r) in enumerate(pairs)]
+    tw = None
+    for l, r in pairs:
+        if r:
+            tw = [Constraint(1, f(P.sub(l, P.scale(r, 2))), name + " [twin]")]
+            break
+    return Ob(name, goal, hyps, tw)
